@@ -3,6 +3,7 @@ package hx
 import (
 	"context"
 	"fmt"
+	"os"
 	"sort"
 	"strings"
 	"sync"
@@ -303,6 +304,7 @@ func TestC13_Migrate(t *testing.T) {
 		}
 		var statuses []int
 		nontrivial := false
+		nTerminal, nReqFinal := 0, 0
 		for i, r := range recs {
 			chid := r.chid(self)
 			st, ok := listed[chid]
@@ -314,6 +316,25 @@ func TestC13_Migrate(t *testing.T) {
 				mfail(t, log, "C19/accessor-panic", "%v (migrated channel)", verr)
 			}
 			want := r.wantVec(self)
+			// the same comparison, stated for the properties an upgrade must not break either
+			switch os.Getenv("VERIF_PROP") {
+			case "C02":
+				if isTerminal(want.Status) && got.Status != want.Status {
+					mfail(t, log, "C02/terminal-changed-by-upgrade", "record %d was %s before the store upgrade and is %s after it", i, datatransfer.Statuses[want.Status], datatransfer.Statuses[got.Status])
+				}
+			case "C03":
+				if want.ReqFinal && !got.ReqFinal {
+					mfail(t, log, "C03/finalization-requirement-lost-by-upgrade", "record %d required finalization before the store upgrade and does not after it", i)
+				}
+			}
+			if isTerminal(want.Status) {
+				stats.For("C02").Class("terminal_record_through_store_upgrade")
+				nTerminal++
+			}
+			if want.ReqFinal {
+				stats.For("C03").Class("finalization_requirement_through_store_upgrade")
+				nReqFinal++
+			}
 			if got.Core() != want.Core() {
 				mfail(t, log, "C13/field-not-preserved", "record %d differs after migration:\n got  %s\n want %s", i, got.Core(), want.Core())
 			}
@@ -394,8 +415,20 @@ func TestC13_Migrate(t *testing.T) {
 			}
 		}
 		sp.Eval()
+		sort.Ints(statuses)
+		switch p := os.Getenv("VERIF_PROP"); {
+		case p == "C02":
+			stats.For("C02").Eval()
+			if nTerminal > 0 {
+				stats.For("C02").Nontrivial(stats.FP("upgrade", fmt.Sprint(statuses)))
+			}
+		case p == "C03":
+			stats.For("C03").Eval()
+			if nReqFinal > 0 {
+				stats.For("C03").Nontrivial(stats.FP("upgrade", fmt.Sprint(statuses), nReqFinal))
+			}
+		}
 		if nontrivial {
-			sort.Ints(statuses)
 			fp := stats.FP(fmt.Sprint(statuses))
 			sp.Nontrivial(fp)
 			if len(log) > 3 {
